@@ -21,7 +21,7 @@ CONSTANTS Alphabet, MaxLen, Emit, Source,
 
 \* SolverMachine takes the same Atoms
 M == INSTANCE SolverMachine WITH
-        BadAtoms <- {},
+        BadAtoms <- {}, Lenient <- TRUE,
         OpTable  <- {"**", "*", "/", "+", "-", "==", "!=", "<=", ">=", "<", ">", "!", "&&", "||",
                      "(", "f1(", "f2("},
         Steps    <- << [ops |-> {"(", "f1(", "f2("}, otype |-> "ARGS"],
